@@ -500,12 +500,12 @@ PROPS = {
         level_note="core::fmt cannot be executed by CBMC (symbolic &str: >10 GB; concrete: no verdict in 50 min), so what chess_move_to_algebraic_notation and get_promotion_chars hand to format! is decided on their MIR: per path, produced text == piece letter ++ disambiguator ++ capture mark ++ destination ++ promotion suffix ++ check suffix (castle: castle text ++ check suffix; promotion: '=' ++ piece letter), callees uninterpreted (their contracts are the CBMC kernels). Uniqueness over whole move lists is derived from C01 + the kernels, not executed. A changed SIGNATURE of a private helper makes its harness file uncompilable: those obligations become inconclusive (exit 2). Trusted: Kani/CBMC/CaDiCaL, z3, lib/mirfmt.py.",
     ),
     "C19": dict(
-        outside='the regex inside square_string_to_bitboard (replaced by an arithmetic parser); the Stockfish process',
-        explanation="Square names for all 64 squares (c19_sq_*), classifier round trip per move kind x colour on symbolic boards with the text built from symbolic bytes (c19_cls_*), to_uci's assembly by z3 over its MIR (mir::to_uci_text).",
+        outside='upper-case or malformed square text (never produced by to_uci); the Stockfish process',
+        explanation="Square names for all 64 squares (c19_sq_*), classifier round trip per move kind x colour on symbolic boards with the text built from symbolic bytes (c19_cls_*), to_uci's assembly by z3 over its MIR (mir::to_uci_text), the text -> square stand-in of the classifier harnesses validated against the real function on all 64 names (native::text_to_square_contract).",
         title="Coordinate (UCI) move text is standard and survives the Stockfish bridge", jobs=16,
         technique=TECH + "; square-name function over all 64 inputs + classifier round trip on symbolic boards with the text built from symbolic bytes; to_uci's format! assembly (origin, destination, q/r/b/n per promotion piece) decided by z3 string queries over the function's MIR",
         level_text="Bounded model checking of the two decidable halves: to_algebraic yields the standard lower-case name for every square, and create_chess_move_from_uci, fed the standard text of a symbolic Legalish move of each kind in a fully symbolic invariant-satisfying position with the mover to move, reconstructs exactly that move (kind, squares, capture tag, promotion piece).",
-        level_note="ChessMove::to_uci's text assembly is decided on its MIR (per path: origin ++ destination ++ the letter of that promotion piece; a returning path for each of the four pieces), because core::fmt is not executable in CBMC (measured). Outside the claim: the regex inside square_string_to_bitboard (replaced by an arithmetic parser), the Stockfish process. Trusted: Kani/CBMC/CaDiCaL, z3, lib/mirfmt.py.",
+        level_note="ChessMove::to_uci's text assembly is decided on its MIR (per path: origin ++ destination ++ the letter of that promotion piece; a returning path for each of the four pieces), because core::fmt is not executable in CBMC (measured). square_string_to_bitboard compiles and runs a regular expression, which CBMC cannot execute: the classifier harnesses replace it by an arithmetic stand-in, and that stand-in's contract is validated by running the real function natively on its whole domain there, the 64 lower-case square names (obligation native::text_to_square_contract -- an exhaustive differential run, not a solver query). Outside the claim: upper-case or malformed square text, the Stockfish process. Trusted: Kani/CBMC/CaDiCaL, z3, lib/mirfmt.py.",
     ),
     "C12": dict(
         outside='states reached by moves that are not rules-shaped (generator legality is C01)',
